@@ -17,11 +17,12 @@ type Chooser interface {
 }
 
 type thread struct {
-	id    int
-	goid  uint64
-	wake  chan struct{}
-	done  bool
-	panic interface{}
+	id        int
+	goid      uint64
+	wake      chan struct{}
+	done      bool
+	panic     interface{}
+	blockedOn verifsched.Locker // mutex the thread waits for (nil = runnable)
 }
 
 type event struct {
@@ -34,6 +35,7 @@ type Result struct {
 	Steps       int
 	Preemptions int
 	Horizon     bool          // the step horizon was hit (livelock guard)
+	Deadlock    bool          // unfinished threads, none runnable
 	Panics      []interface{} // per thread, nil if none
 }
 
@@ -41,7 +43,43 @@ var (
 	active  bool
 	byGoid  map[uint64]*thread
 	parkedC chan event
+	owner   map[verifsched.Locker]*thread
 )
+
+// lockPoint models a blocking mutex acquisition: a scheduling point first; while another
+// managed thread owns the mutex the caller is not runnable.
+func lockPoint(m verifsched.Locker) {
+	var t *thread
+	if active {
+		t = byGoid[runtime.VerifGoid()]
+	}
+	if t == nil {
+		m.Lock()
+		return
+	}
+	for {
+		if owner[m] != nil {
+			t.blockedOn = m
+		}
+		parkedC <- event{t: t}
+		<-t.wake
+		if owner[m] == nil {
+			t.blockedOn = nil
+			owner[m] = t
+			m.Lock()
+			return
+		}
+	}
+}
+
+func unlockPoint(m verifsched.Locker) {
+	if active {
+		if t := byGoid[runtime.VerifGoid()]; t != nil && owner[m] == t {
+			delete(owner, m)
+		}
+	}
+	m.Unlock()
+}
 
 func point() {
 	if !active {
@@ -84,27 +122,40 @@ func Run(bodies []func(), ch Chooser, horizon int) Result {
 		<-ready
 		byGoid[t.goid] = t
 	}
+	owner = map[verifsched.Locker]*thread{}
 	verifsched.Hook = point
+	verifsched.LockHook = lockPoint
+	verifsched.UnlockHook = unlockPoint
 	active = true
 	res := Result{Panics: make([]interface{}, len(bodies))}
 	running := -1
 	for {
 		var enabled []int
-		if running >= 0 && !ths[running].done {
+		runnable := func(t *thread) bool { return !t.done && (t.blockedOn == nil || owner[t.blockedOn] == nil) }
+		if running >= 0 && runnable(ths[running]) {
 			enabled = append(enabled, running)
 		}
+		unfinished := 0
 		for _, t := range ths {
-			if !t.done && t.id != running {
+			if !t.done {
+				unfinished++
+			}
+			if runnable(t) && t.id != running {
 				enabled = append(enabled, t.id)
 			}
 		}
 		if len(enabled) == 0 {
+			if unfinished > 0 {
+				res.Deadlock = true // the blocked goroutines stay parked (leaked); the caller reports it
+			}
 			break
 		}
 		if res.Steps >= horizon {
 			res.Horizon = true
 			// let everything run to completion without further choices
 			verifsched.Hook = nil
+			verifsched.LockHook = nil
+			verifsched.UnlockHook = nil
 			active = false
 			for _, id := range enabled {
 				t := ths[id]
@@ -125,7 +176,7 @@ func Run(bodies []func(), ch Chooser, horizon int) Result {
 			c = ch.Choose(len(enabled), "thread")
 		}
 		next := enabled[c]
-		if running >= 0 && !ths[running].done && next != running {
+		if running >= 0 && runnable(ths[running]) && next != running {
 			res.Preemptions++
 		}
 		running = next
@@ -142,6 +193,8 @@ func Run(bodies []func(), ch Chooser, horizon int) Result {
 		}
 	}
 	verifsched.Hook = nil
+	verifsched.LockHook = nil
+	verifsched.UnlockHook = nil
 	active = false
 	return res
 }
